@@ -14,3 +14,4 @@ import EdxmlProps.C03
 import EdxmlProps.C13
 import EdxmlProps.C10
 import EdxmlProps.C07
+import EdxmlProps.C08
